@@ -111,6 +111,7 @@ type cfg struct {
 	Delay   int  // binlog update delay in ms
 	WTR     int  // reactive.WriteThenReadDelay in ms
 	Reorder int  // 1, 2: the database table declares its columns in another order than the struct (rows in change events follow the database)
+	Switch  int  // 1+alt: the first live computation selects between Queries[0] and filter alt by other reactive state; the history is selection away, the writes, selection back (each step settled)
 	MetaBad bool // the column list cannot be fetched (driver.ErrBadConn) while change events arrive: they are undecodable
 }
 
@@ -118,6 +119,9 @@ func (c cfg) name() string {
 	s := fmt.Sprintf("queries=%v writers=%v fault=%t delay=%d wtr=%d", c.Queries, c.Writers, c.Fault, c.Delay, c.WTR)
 	if c.MetaBad {
 		s += " metabad=true"
+	}
+	if c.Switch != 0 {
+		s += fmt.Sprintf(" switch=%d", c.Switch)
 	}
 	if c.Reorder != 0 {
 		s += fmt.Sprintf(" reorder=%d", c.Reorder)
@@ -166,6 +170,9 @@ func parse(s string) cfg {
 	fmt.Sscan(get("wtr"), &c.WTR)
 	if strings.Contains(s, "metabad=true") {
 		c.MetaBad = true
+	}
+	if i := strings.Index(s, "switch="); i >= 0 {
+		fmt.Sscan(s[i+7:], &c.Switch)
 	}
 	if i := strings.Index(s, "reorder="); i >= 0 {
 		fmt.Sscan(s[i+8:], &c.Reorder)
@@ -323,12 +330,21 @@ func item(c cfg) *explore.Item {
 			err  error
 		}
 		lives := make([]*live, len(c.Queries))
+		selected := rt.NewVar(0)
+		selection := reactive.NewResource()
 		for n, qi := range c.Queries {
 			n, qi := n, qi
 			l := &live{}
 			lives[n] = l
 			l.rr = reactive.NewRerunner(context.Background(), func(ctx context.Context) (interface{}, error) {
 				var rows []*Item
+				qi := qi
+				if c.Switch != 0 && n == 0 {
+					reactive.AddDependency(ctx, selection, nil)
+					if selected.Load() == 1 {
+						qi = c.Switch - 1
+					}
+				}
 				if err := ldb.Query(ctx, &rows, fs[qi].f, nil); err != nil {
 					l.err = err
 					return nil, err
@@ -344,6 +360,13 @@ func item(c cfg) *explore.Item {
 				return keys, nil
 			}, 0, false)
 		}
+		if c.Switch != 0 {
+			// a query the computation stops using and uses again: away, the writes, back - each step settled
+			rt.Quiesce()
+			selected.Store(1)
+			selection.Strobe()
+			rt.Quiesce()
+		}
 		for _, seq := range c.Writers {
 			seq := seq
 			rt.Go(func() {
@@ -354,6 +377,11 @@ func item(c cfg) *explore.Item {
 			})
 		}
 		rt.Quiesce()
+		if c.Switch != 0 {
+			selected.Store(0)
+			selection.Strobe()
+			rt.Quiesce()
+		}
 
 		// ---- oracle at quiescence ----
 		var final []*Item
@@ -429,6 +457,14 @@ func configs(tier string) []cfg {
 	for q := range filters() {
 		out = append(out, cfg{Queries: []int{q}, Writers: [][]int{{q % 4, 3 + q%5}}, Reorder: 1 + q%2})
 	}
+	// a live query dropped by its computation in one run and used again later
+	for q := range filters() {
+		for a := 0; a < nw; a++ {
+			if tier == "thorough" || (a+q)%2 == 0 {
+				out = append(out, cfg{Queries: []int{q}, Writers: [][]int{{a}}, Switch: 1 + (q+1)%len(filters())})
+			}
+		}
+	}
 	out = append(out, cfg{Queries: []int{0}, Writers: [][]int{{2}}, Delay: 5}, cfg{Queries: []int{0}, Writers: [][]int{{3}}, WTR: 3},
 		cfg{Queries: []int{2}, Writers: [][]int{{4}}, Delay: 5, WTR: 3, Fault: true})
 	if tier == "thorough" {
@@ -451,5 +487,5 @@ func run(rp *explore.Report, tier string) {
 func init() {
 	reg.Register(&reg.Harness{Property: "C07", Name: "c07/livesql", Level: "model_checking", Bounds: [2]int{2, 3}, Run: run,
 		Item: func(name string) *explore.Item { return item(parse(name)) },
-		Rule: "items = 1-2 live queries (rerunner around LiveDB.Query; filters on key, int32 column, two columns, NULL / pointer column, empty filter, other Go type) x 1-2 writers issuing inserts, updates moving rows into and out of the filter, deletes, upserts through sqlgen over an in-memory driver whose commits emit replication-shaped row events (typed ints, NULLs) into the real RunPollLoop through an in-process streamer, optional update delay / WriteThenReadDelay on the virtual clock, a database column order that differs from the struct's, a column-list fetch that fails with driver.ErrBadConn, and explorer-chosen garbled events (extra column, unscannable value = schema change); all schedules within the deviation bound. Oracle at quiescence: rows held by each live query == filter evaluated on the final table; after Stop/close every goroutine ends and no dependency stays tracked"})
+		Rule: "items = 1-2 live queries (rerunner around LiveDB.Query; filters on key, int32 column, two columns, NULL / pointer column, empty filter, other Go type) x 1-2 writers issuing inserts, updates moving rows into and out of the filter, deletes, upserts through sqlgen over an in-memory driver whose commits emit replication-shaped row events (typed ints, NULLs) into the real RunPollLoop through an in-process streamer, optional update delay / WriteThenReadDelay on the virtual clock, a database column order that differs from the struct's, a column-list fetch that fails with driver.ErrBadConn, a computation that selects between two live queries by other reactive state (selection away, the writes, selection back: a query dropped in one run and used again later), and explorer-chosen garbled events (extra column, unscannable value = schema change); all schedules within the deviation bound. Oracle at quiescence: rows held by each live query == filter evaluated on the final table; after Stop/close every goroutine ends and no dependency stays tracked"})
 }
